@@ -5,15 +5,14 @@ CONSTANT Mode <- Mode3
 CONSTANT Outcome <- OutVal3
 CONSTANT Cancellable <- NoCancel
 CONSTANT CancelAt <- AnyAwait
-CONSTANT MaxStale = 0
-CONSTANT MaySilence = TRUE
+CONSTANT MaxStale = 2
+CONSTANT MaySilence = FALSE
 CONSTANT ConfPerTwice = 2
 CONSTANT FlushAfterConfirm = FALSE
 CONSTANT FlushAt = "acquired"
 INVARIANT TypeOK
 INVARIANT WriteByOwner
 INVARIANT TxnAtomic
-INVARIANT NoCrossTalk
+INVARIANT OwnWindow
 INVARIANT CleanEnd
-PROPERTY EventuallyAllDone
 CHECK_DEADLOCK FALSE
